@@ -44,6 +44,24 @@ claim("C07",
       "Not decided: EC block counts against the standard's table entry by entry (no independent copy; the structural invariants pin every entry up to compensating errors), "
       "calculateBCHCode itself, function-pattern embedding, and matrix_lib == matrix_ref for whole symbols.",
       "tables dumped from the compiled package on every run; products of symbolic integers uninterpreted in function VCs (mask 5-7 claims are conditional on i*j >= 0).")
+claim("C01",
+      "Mirror pairs of the QR codec, each proved for all inputs (the composition through placement, interleaving and Reed-Solomon is not): "
+      "(1) bit level: BitArray.AppendBits writes value bits most-significant first at the end (C16) and BitSource.ReadBits returns the next n stream bits most-significant first, advances by exactly n, fails exactly when n is outside 1..32 or exceeds what is available (returning 0 and leaving the position); "
+      "(2) data masks: the encoder's MaskUtil_getDataMaskBit and the eight decoder predicates equal the same ISO formulas (C07); "
+      "(3) numeric and alphanumeric modes: every AppendBits call of appendNumericBytes/appendAlphanumericBytes carries exactly the 10/7/4-bit digit groups and 11/6-bit code pairs of the standard, the encoder's code table and the decoder's character list are inverse (all 96/45 entries), and the packing arithmetic is inverted by the decoder's / and % (lemmas); "
+      "(4) Kanji mode: appendKanjiBytes emits kanjiEnc(code) in 13 bits for codes in the two Shift JIS ranges only, decodeKanjiSegment hands the Shift JIS decoder 2*count bytes whose lead bytes lie in 0x81..0x9F / 0xE0..0xEB with trail >= 0x40 (the image of the standard's inverse map), and kanjiDec(kanjiEnc(c)) == c for every double-byte code (lemma); "
+      "(5) character count: in Encoder_encode the count written by appendLengthInfo equals the payload that follows (numericBits(n), alnumBits(n), 8*n bits) — proved as a call-site assertion over the proved payload sizes of appendBytes; "
+      "(6) version choice (C13) and format/version word tolerance (C05). "
+      "Not decided: decodeNumericSegment/decodeAlphanumericSegment/decodeByteSegment against the stream, terminateBits, interleaveWithECBytes <-> DataBlock_GetDataBlocks, embedDataBits <-> ReadCodewords, extractPureBits/moduleSize, ECI handling, the end-to-end round trip.",
+      "Encoder_encode is checked for its call-site assertion only (its postconditions stay a trusted summary); x/text encoders are stubs (arbitrary bytes, length <= 4*len+64); hint maps unmodelled; appendKanjiBytes/decodeKanjiSegment in 64-bit vectors, the other segment functions over mathematical integers.")
+claim("C15",
+      "Narrow claim on the ECI and Kanji plumbing: parseECIValue is proved to decode the one-, two- and three-byte designator forms of ISO/IEC 18004 8.4.1.1, to consume exactly 8/16/24 bits, to return a value in 0..2^21-1, "
+      "and to fail (returning -1) exactly on a short stream or a first byte 111xxxxx; appendECI is proved to write the mode indicator 0111 followed by the entry's canonical value in 8 bits, which is the correct designator because every "
+      "registered entry's canonical value is an assigned number 0..30 (lemma over all 22 compiled registry entries; all alias values < 900); Kanji mode: kanjiDec(kanjiEnc(c)) == c for every Shift JIS double-byte code, the encoder emits kanjiEnc(code) "
+      "for codes in the two ranges only and the decoder hands the Shift JIS decoder only bytes in the image of the inverse map (see C01); the byte-mode character count equals the number of bytes actually emitted in the hinted encoding (C01 item 5). "
+      "Not decided: the registry maps valueToECI/nameToECI (Go maps are not modelled: lookups return arbitrary values), GetCharacterSetECI/ByName/ByValue consistency, that the ECI segment is emitted whenever a hint is given, "
+      "guessCharset, the transcoders of golang.org/x/text (external), decodeByteSegment's choice of character set, the end-to-end round trip per encoding.",
+      "x/text transcoders and ianaindex are external stubs; maps unmodelled; tables dumped from the compiled package.")
 claim("C04",
       "Field arithmetic, all six fields, every element: the compiled exp/log tables are proved to be the orbit of multiplication by x modulo the field's primitive polynomial "
       "(exp[0]=1, exp[i+1]=xtime(exp[i]), log(exp(i))=i, exp(log(x))=x, x*inv(x)=1 via the tables), GenericGF.Multiply/Inverse/Exp/Log are proved equal to their table definitions with exact error conditions, "
@@ -128,6 +146,6 @@ claim("C17",
       "calculateBlackPoints, calculateThresholdForBlock, thresholdBlock, GetBlackRow).",
       "products of symbolic integers uninterpreted except for the proved index lemmas (viewRow, rotIdx, rowIdxInj); errors constructors from xerrors assumed non-panicking.")
 
-for p in ["C01","C02","C03","C09","C15"]:
+for p in ["C02","C03","C09"]:
     na(p, NOTYET)
 na("C11", "The library has no Aztec writer: 'conforming symbol' would have to be a hand-written restatement of ISO/IEC 24778 (a model, not the code), and the image-to-bits path is a float-geometry detector; no contract on one call of the real code expresses the property. The Aztec decoder's totality is covered under C06.")
